@@ -529,6 +529,15 @@ theorem t2_area_end_bridge (sz : Nat) : Gen.Fn.t2_area_end sz = ((Tlv.Cfg.areaEn
   unfold Gen.Fn.t2_area_end Tlv.Cfg.areaEnd Tlv.t2Cfg
   simp
 
+/-- the complete terminator test of the Type 2 writer (`Tlv.phase2`: `nextFree .. < areaEnd`) -/
+theorem t2_term_cond_bridge (off sz : Nat) : Gen.Fn.t2_term_cond off sz = decide (off < Tlv.Cfg.areaEnd Tlv.t2Cfg sz) := by
+  unfold Gen.Fn.t2_term_cond Tlv.Cfg.areaEnd Tlv.t2Cfg
+  by_cases h : off < sz * 8 + 16
+  · have : (off : Int) < (sz : Int) * 8 + 16 := by omega
+    simp [h, this]
+  · have : ¬ (off : Int) < (sz : Int) * 8 + 16 := by omega
+    simp [h, this]
+
 theorem t2_cc_magic_bridge (b : Nat) : Gen.Fn.t2_cc_magic b = decide (b ≠ 0xE1) := by
   unfold Gen.Fn.t2_cc_magic; py_bits
 theorem t2_cc_version_bridge (b : Nat) : Gen.Fn.t2_cc_version b = decide (b / 16 ≠ 1) := by
